@@ -56,7 +56,8 @@ def get_bright(mask, image, ret_data="avg,sd"):
 
     for ii in range(length):
         imgi = image[ii]
-        mski = mask[ii]
+        # boolean indexing also for masks stored as 0/1 or 0/255 integers
+        mski = np.asarray(mask[ii], dtype=bool)
         # Assign results
         if ret_avg:
             avg[ii] = np.mean(imgi[mski])
